@@ -9,6 +9,7 @@ CONSTANTS
   RetryFailed = FALSE
   ClosedRejects = FALSE
   AtomicWrite = FALSE
+  RegisterAtGet = TRUE
   AtomicEvict = FALSE
   UniqueStamp = TRUE
   EvictChecksRef = TRUE
@@ -17,7 +18,7 @@ CONSTANTS
   AckFrozen = TRUE
 SPECIFICATION TraceSpec
 INVARIANTS TypeOK FlushShape FlushedOnce AckNotAhead AckedRowsDurable ClosedIsFlushed NoStuck
-PROPERTIES FrozenNeverGrows
+PROPERTIES FlushedNeverGrows NoWriteIntoClosed
 CONSTRAINT HighWater
 POSTCONDITION TraceAccepted
 CHECK_DEADLOCK FALSE
